@@ -10,11 +10,12 @@
        mutex-based priority mailbox whose counter is bumped after the push);
      - phantom ErrMailboxFull of the bounded priority mailboxes;
      - permanent stall of UnboundedFairMailbox (sender deactivated while a producer is mid-link);
-     - pooled-segment reuse of the segmented mailbox (no Coq model of the pool: shown on the real
-       code only; the FIFO theorems for it are the reservation-queue ones under "no reuse"). *)
+     - pooled-segment reuse of the segmented mailbox (C04/ConcSeg.v models the global pool; the FIFO
+       theorems for this mailbox are the reservation-queue ones, i.e. under "a segment is not
+       re-issued while a producer still holds it"). *)
 From Coq Require Import List Bool Arith ZArith Permutation.
 Import ListNotations.
-From GV Require Import C04.Model C04.Contract C04.Heap C04.Seq C04.Ring C04.Prio C04.ConcPrio C04.ConcFair.
+From GV Require Import C04.Model C04.Contract C04.Heap C04.Seq C04.Pow2 C04.Ring C04.Seg C04.Fair C04.Prio C04.ConcPrio C04.ConcFair C04.ConcSeg.
 
 (* ---------------------------------------------------------------- FIFO, any interleaving *)
 
@@ -55,19 +56,34 @@ Theorem C04_unbounded_refines_fifo : forall ops,
   mrun unb_model (minit unb_model) ops = mrun (fifo_spec None false) (minit (fifo_spec None false)) ops.
 Proof. exact unb_refines_fifo. Qed.
 
-(* NonBlockingBoundedMailbox: the Vyukov ring (cells with sequence numbers, masked positions) with
-   2^k cells is a FIFO queue of capacity 2^k — every k >= 1, every operation sequence; ErrMailboxFull
-   exactly when 2^k messages are held *)
-Theorem C04_ring_refines_bounded_fifo : forall cap k, (1 <= k)%Z -> nextPowerOfTwo cap = (2 ^ k)%Z -> forall ops,
-  mrun (nbb_model cap) (minit (nbb_model cap)) ops =
-  mrun (fifo_spec (Some (2 ^ k)%Z) false) (minit (fifo_spec (Some (2 ^ k)%Z) false)) ops.
-Proof. exact nbb_refines_fifo. Qed.
+(* UnboundedSegmentedMailbox: segments with write / dequeue indices, roll-over to a fresh segment when
+   one fills, dropping of drained head segments — a FIFO list, for every segment size K >= 1 (256 in
+   the code) and every operation sequence *)
+Theorem C04_segmented_refines_fifo : forall K, (1 <= K)%nat -> forall ops,
+  mrun (seg_model K) (minit (seg_model K)) ops = mrun (fifo_spec None false) (minit (fifo_spec None false)) ops.
+Proof. exact seg_refines_fifo. Qed.
 
-(* the documented rounding: least power of two >= max(capacity, 2) — finite sweep, bound in the
-   statement (larger capacities: differential test against the Go function on every run) *)
-Theorem C04_nextPowerOfTwo_partial : forall n, (0 <= n <= 4097)%Z ->
+(* NonBlockingBoundedMailbox: the Vyukov ring (cells with sequence numbers, masked positions) is, for
+   EVERY requested capacity (up to 2^62) and every operation sequence, the FIFO queue whose capacity is
+   the least power of two >= max(capacity, 2): ErrMailboxFull exactly when that many are held *)
+Theorem C04_ring_refines_bounded_fifo : forall cap, (cap <= 2 ^ 62)%Z -> forall ops,
+  mrun (nbb_model cap) (minit (nbb_model cap)) ops =
+  mrun (fifo_spec (Some (2 ^ Z.log2_up (Z.max cap 2))%Z) false)
+       (minit (fifo_spec (Some (2 ^ Z.log2_up (Z.max cap 2))%Z) false)) ops.
+Proof. exact nbb_refines_fifo_all. Qed.
+
+(* BoundedMailbox over the Workiva ring (same cells; a Put on a full ring blocks until the next Get;
+   at least two cells after the capacity repair): blocking FIFO queue of the rounded capacity *)
+Theorem C04_bounded_refines_blocking_fifo : forall cap, (cap <= 2 ^ 62)%Z -> forall ops,
+  mrun (wb_model cap) (minit (wb_model cap)) ops =
+  mrun (fifo_spec (Some (2 ^ Z.log2_up (Z.max cap 2))%Z) true)
+       (minit (fifo_spec (Some (2 ^ Z.log2_up (Z.max cap 2))%Z) true)) ops.
+Proof. exact wb_refines_fifo_all. Qed.
+
+(* the documented rounding (bit smearing of nextPowerOfTwo): least power of two >= max(n, 2) *)
+Theorem C04_nextPowerOfTwo : forall n, (n <= 2 ^ 62)%Z ->
   nextPowerOfTwo n = (2 ^ Z.log2_up (Z.max n 2))%Z /\ (Z.max n 2 <= nextPowerOfTwo n < 2 * Z.max n 2)%Z.
-Proof. exact nextPowerOfTwo_rounds. Qed.
+Proof. intros n H. split; [exact (nextPowerOfTwo_spec n H) | exact (proj1 (nextPowerOfTwo_bounds n H))]. Qed.
 
 (* the binary heap shared by the four priority mailboxes (container/heap and stableHeap run the same
    up/down loops): for every strict weak order, push keeps the heap order and the elements; pop
@@ -151,14 +167,38 @@ Proof.
   intros n. exact (proj1 (fair_stall_is_permanent n)).
 Qed.
 
+(* ... what does hold for the fair mailbox: without a producer preempted mid-enqueue (any
+   sequential use) it is exactly "per-sender FIFO queues served round-robin in activation order",
+   for all operation sequences and any number of sender keys; per-sender FIFO under full
+   concurrency is C03_fifo_per_sender_queues *)
+Theorem C04_fair_partial : forall ops,
+  mrun fair_model (minit fair_model) ops = mrun rr_spec (minit rr_spec) ops.
+Proof. exact fair_refines_rr. Qed.
+
+(* ---------------------------------------------------------------- segmented mailbox *)
+
+(* the pooled-segment reuse: a producer of mailbox 0 holding a stale tail segment stores its message
+   after the segment was drained, pooled and re-issued to mailbox 1: the message (id 1) is accepted
+   by mailbox 0 (Enqueue returned), delivered by mailbox 1, never by mailbox 0, whose Len stays 1 *)
+Theorem C04_segmented_pool_aba_refuted :
+  sdeliv aba_final = [(0%nat, 101%Z); (0%nat, 102%Z); (0%nat, 2%Z); (1%nat, 1%Z); (1%nat, 3%Z)] /\
+  nth_error (sthreads aba_final) 1 = Some (SIdle, []) /\
+  sblen (box_at aba_final 0) = 1%Z /\
+  In (1%nat, mid ma) (sdeliv aba_final) /\ ~ In (0%nat, mid ma) (sdeliv aba_final).
+Proof. exact segmented_pool_aba. Qed.
+
+Print Assumptions C04_segmented_pool_aba_refuted.
+Print Assumptions C04_fair_partial.
 Print Assumptions C04_fifo_visibility_contract.
 Print Assumptions C04_fifo_order.
 Print Assumptions C04_fifo_capacity.
 Print Assumptions C04_fifo_empty_report_refuted.
 Print Assumptions C04_empty_report_partial.
 Print Assumptions C04_unbounded_refines_fifo.
+Print Assumptions C04_segmented_refines_fifo.
 Print Assumptions C04_ring_refines_bounded_fifo.
-Print Assumptions C04_nextPowerOfTwo_partial.
+Print Assumptions C04_bounded_refines_blocking_fifo.
+Print Assumptions C04_nextPowerOfTwo.
 Print Assumptions C04_heap_push.
 Print Assumptions C04_heap_pop_min.
 Print Assumptions C04_stable_priority_refines.
